@@ -294,8 +294,9 @@ def mst(X):
     label = np.arange(n).astype(np.intp)
 
     edges = np.zeros((0, 2)).astype(np.intp)
-    # upper bound on maxdist**2
-    maxdist = 4 * np.sum((X - X[0]) ** 2, 1).max()
+    # strict upper bound on the squared distances (also when all
+    # the samples coincide)
+    maxdist = 4 * np.sum((X - X[0]) ** 2, 1).max() + 1.
     nbcc = n
     while nbcc > 1:
         mindist = maxdist * np.ones(nbcc)
